@@ -1031,6 +1031,18 @@ class Gen:
             return "(%s %s %s)" % (item, r.choice(["in", "not in"]), cont)
         if c < 0.24:
             return "(%s %s None)" % (self.value(d - 1), r.choice(["is", "is not", "==", "!="]))
+        if c < 0.30:
+            # the same members in a list and in a tuple: equal only if the container kinds are equal
+            items = [self.leaf(r.choice(["int", "str"])) for _ in range(r.choice([0, 1, 2, 2, 3]))]
+            tup = "(%s,)" % ", ".join(items) if items else "()"
+            lst = "[%s]" % ", ".join(items)
+            a, b = r.choice([(tup, lst), (lst, tup), (tup, tup), (lst, lst)])
+            c2 = r.random()
+            if c2 < 0.6:
+                return "(%s %s %s)" % (a, r.choice(["==", "!=", "=="]), b)
+            if c2 < 0.8:
+                return "(%s %s [%s])" % (a, r.choice(["in", "not in"]), b)
+            return "((%s + %s) %s (%s + %s))" % (a, a, r.choice(["==", "!="]), b, b)
         want = r.choice(["int", "int", "str", "list", "any"])
         n = r.choice([1, 1, 1, 2, 2, 3])
         parts = [self.value(d - 1, want)]
@@ -1323,6 +1335,12 @@ WIDE_FIELDS_TEMPLATES = [
     "any(f.name == 'ip' for f in fields('net.ipaddress'))", "all(f.name != 'ip' for f in fields(net.ipaddress))",
     "any(f.name == 'p' for f in fields(path))", "any(f.name == 'u' for f in fields(uri))",
     "'test/c07wide' in names(r)", "name(r) == 'test/c07wide'",
+]
+# list vs tuple: the kind of the container is part of the value
+KIND_TEMPLATES = [
+    "(1, 2) == [1, 2]", "() == []", "(r.n,) != [r.n]", "[1, 2] in [(1, 2)]", "(1, 2) in [[1, 2]]", "(r.s, r.n) == (r.s, r.n)", "[r.s] == [r.s]",
+    "((1,) + (2,)) == (1, 2)", "([1] + [2]) == [1, 2]", "(1, 2) < (1, 3)", "any(x == (1, 2) for x in [[1, 2]])", "(r.a == (1, 2, 3)) or (r.a == [1, 2, 3])",
+    "(1, 2) != (1, 2)", "[(r.n, r.m)] == [(r.n, r.m)]", "[(r.n, r.m)] == [[r.n, r.m]]", "() == r.l", "(r.l == ()) or (r.l == [])",
 ]
 MULTI_TEMPLATES = [
     "10 < Type.varint < 100", "1000 < Type.varint < 10000", "10 < Type.varint < 60 < Type.varint", "1 < Type.varint < 10 < Type.varint < 100",
@@ -1634,7 +1652,7 @@ def differential(ctx, kf, budget_pairs, maxdepth, rnd, with_coq, exhaustive=Fals
                 yield ("on", ri), t
         for t in MULTI_TEMPLATES:
             yield "multi", t
-        for t in HELPER_NONE_TEMPLATES:
+        for t in HELPER_NONE_TEMPLATES + KIND_TEMPLATES:
             yield "helpernone", t
         for t in WIDE_FIELDS_TEMPLATES:
             yield "widefields", t
